@@ -9,6 +9,7 @@ import (
 
 	"ocivet/internal/core"
 	"ocivet/internal/facts"
+	"ocivet/internal/load"
 )
 
 func init() {
@@ -79,6 +80,18 @@ func usesOf(v ssa.Value, visit func(user ssa.Instruction, v ssa.Value)) {
 				if x.Val == v {
 					visit(x, v)
 				}
+			case *ssa.Call:
+				// handed to a private helper of the module: follow the parameter inside it
+				h := x.Call.StaticCallee()
+				if h != nil && h.Blocks != nil && load.InModule(h) && len(privateCallSites(h)) > 0 && len(h.Params) == len(x.Call.Args) {
+					for i, a := range x.Call.Args {
+						if a == v {
+							walk(h.Params[i], d+1)
+						}
+					}
+					continue
+				}
+				visit(ref, v)
 			default:
 				visit(ref, v)
 			}
@@ -209,7 +222,7 @@ func c11Confinement(c *core.Ctx) {
 				c.Check(seen && notBearer, "C11.R4", key, ci.Pos(), "Basic credentials on the registry request only after a non-bearer challenge", "the configured password is sent as Basic auth to the registry on a path where a challenge has not been seen or its scheme may be bearer: passwords reach a registry that never issued a Basic challenge (or on a first unauthenticated request)")
 			} else {
 				// a token request: its URL must derive from the challenge's realm
-				fromRealm := sliceHas(reqV, func(v ssa.Value) bool {
+				fromRealm := sliceHasUp(reqV, func(v ssa.Value) bool {
 					lk, ok := v.(*ssa.Lookup)
 					if !ok {
 						return false
@@ -222,7 +235,7 @@ func c11Confinement(c *core.Ctx) {
 						_, fld, isF := facts.FieldOf(v2)
 						return isF && fld == "wwwAuthenticate"
 					})
-				})
+				}, 2)
 				c.Check(fromRealm, "C11.R5", facts.FuncName(fn)+"/basic-auth-to-realm", ci.Pos(), "token-request credentials go to the challenge's realm", "Basic credentials are attached to a request whose URL is not derived from the realm of this host's own challenge")
 			}
 		}
